@@ -39,9 +39,9 @@ void parsec_output(int id, const char *fmt, ...) { (void)id; (void)fmt; }
 char *parsec_task_snprintf(char *s, size_t n, const parsec_task_t *t) { (void)n; (void)t; return s; }
 
 static const int vals[NVAL][REF_NG] = { VALS };
-static REF_TP_T tps[NVAL];
-static TASK_T gen_task[NVAL];            /* the task that runs the startup function */
-static parsec_data_collection_t dcs[NVAL];
+static REF_TP_T the_tp, tp_zero;
+static TASK_T the_gen_task, task_zero;   /* the task that runs the startup function */
+static parsec_data_collection_t the_dc;
 static const parsec_task_class_t *tcs[REF_NCLS];
 
 /* one context / vp / es for everybody */
@@ -119,15 +119,16 @@ static void draw_s(void)
 static void one(int v)
 {
     const int *g = vals[v];
-    REF_TP_T *tp = &tps[v];
+    REF_TP_T *tp = &the_tp;
+    the_tp = tp_zero; the_gen_task = task_zero;
     n_alloc = n_marked = n_pend = n_sched = n_sched_calls = n_push_unmarked = 0; gen_taskpool = (parsec_taskpool_t *)tp;
-    vp_dc_init(&dcs[v]);
-    dcs[v].myrank = MYRANK;
-    ref_set_globals(tp, g, &dcs[v]);
+    vp_dc_init(&the_dc);
+    the_dc.myrank = MYRANK;
+    ref_set_globals(tp, g, &the_dc);
     tp->super.super.context = &the_ctx;
     tp->super.super.task_classes_array = tcs;
-    gen_task[v].taskpool = (parsec_taskpool_t *)tp;
-    gen_task[v].task_class = ref_tc[CID];
+    the_gen_task.taskpool = (parsec_taskpool_t *)tp;
+    the_gen_task.task_class = ref_tc[CID];
     /* locals (incl. reserved[]) are zero: static object, as chain_startup's memset leaves them */
 
     size_t it = (size_t)IN_RANGE(1, 4), ch = (size_t)IN_RANGE(0, 4);
@@ -136,7 +137,7 @@ static void one(int v)
 
     int rc = PARSEC_HOOK_RETURN_AGAIN, calls = 0;
     for (int c = 0; c < MAXCALLS && rc == PARSEC_HOOK_RETURN_AGAIN; c++) {
-        rc = STARTUP_FN(&the_es, &gen_task[v]);
+        rc = STARTUP_FN(&the_es, &the_gen_task);
         calls++;
     }
     VASSERTM(rc == PARSEC_HOOK_RETURN_DONE, "startup terminates (DONE) within #tasks+2 re-entries");
